@@ -65,7 +65,8 @@ def rep_strategy(clock):
     return st.fixed_dictionaries({"start": start, "warmup": warm, "length": length})
 
 
-def action_strategy(clock, illegal=True, cancel=True, extra=None):
+def action_strategy(clock, illegal=True, cancel=True, extra=None, prio=None):
+    PRIO = prio if prio is not None else globals()['PRIO']
     node = st.integers(0, 999)
     d = delay_strategy(clock)
     acts = [
@@ -99,11 +100,11 @@ def action_strategy(clock, illegal=True, cancel=True, extra=None):
 
 
 def program_strategy(clocks=("float", "int", "duration"), max_nodes=24, illegal=True, cancel=True,
-                     extra_actions=None, max_actions=4, cap=300):
+                     extra_actions=None, max_actions=4, cap=300, prio=None):
     @st.composite
     def prog(draw):
         clock = draw(st.sampled_from(list(clocks)))
-        act = action_strategy(clock, illegal, cancel, extra_actions(clock) if extra_actions else None)
+        act = action_strategy(clock, illegal, cancel, extra_actions(clock) if extra_actions else None, prio)
         nn = draw(st.integers(1, max_nodes))
         nodes = [draw(st.lists(act, min_size=0, max_size=max_actions)) for _ in range(nn)]
         root = draw(st.lists(act, min_size=1, max_size=6))
